@@ -132,7 +132,12 @@ class Logger:
         def insn(orig):
             def f(self, state, inst, data, fixups):
                 d = inst.desc
-                indirect = d.is_indirect_branch or A._is_indirect_call(self._state.target.isa, inst)
+                # indirect transfers, read off the x86-64 encoding (not through the library's own instruction-name table): a
+                # direct call is e8, a direct jump e9 / eb / 0f 8x / 7x; ff /2../5 are the indirect forms
+                k_ = 0
+                while k_ < len(data) and (0x40 <= data[k_] <= 0x4F or data[k_] in (0x66, 0x3E, 0x2E, 0xF2, 0xF3)):
+                    k_ += 1
+                indirect = (d.is_call or d.is_branch) and k_ < len(data) and data[k_] == 0xFF
                 fx = " ".join(f"{x.offset} {x.kind_info.bit_size // 8} {1 if x.kind_info.is_pc_rel else 0} {log.mcx(x.value)}" for x in fixups)
                 log.events.append(f"insn {len(data)} {int(d.is_return)} {int(d.is_call)} {int(d.is_branch)} {int(d.is_conditional_branch)} {int(bool(indirect))} {len(fixups)} {fx}")
                 return orig(self, state, inst, data, fixups)
